@@ -25,7 +25,7 @@ fn spec_cmp(sa: bool, a: u32, b: u32, sc: bool, c: u32, d: u32) -> Ordering {
     }
 }
 
-// @h prop=C07 tier=quick unwind=8 timeout=1200 mem=10
+// @h prop=C07 tier=quick unwind=8 timeout=3600 mem=10
 #[cfg_attr(kani, kani::proof)]
 pub fn cmp_full() {
     let (a, b, c, d) = (any_u32(), any_u32(), any_u32(), any_u32());
@@ -49,7 +49,7 @@ pub fn cmp_full() {
 
 use crate::number::big_number::verif_bn::{bn_i, bn_v, m_add, m_div, m_gcd16, m_gcd_contract, m_mul, m_new1, m_rem, m_sub, ref_gcd, GCD_LOG};
 
-// @h prop=C07 unwind=8 timeout=600 what=partial_cmp_is_None_iff_a_NaN_is_involved(both_NaN_encodings)
+// @h prop=C07 unwind=8 timeout=2400 what=partial_cmp_is_None_iff_a_NaN_is_involved(both_NaN_encodings)
 #[cfg_attr(kani, kani::proof)]
 pub fn cmp_nan() {
     let (a, b, c, d) = (any_u32(), any_u32(), any_u32(), any_u32());
@@ -68,7 +68,7 @@ pub fn cmp_nan() {
     std::mem::forget((x, y));
 }
 
-// @h prop=C07 unwind=10 timeout=600 mem=12 what=integers_with_two-limb_numerators,denominator_1,both_signs
+// @h prop=C07 unwind=10 timeout=2400 mem=12 what=integers_with_two-limb_numerators,denominator_1,both_signs
 #[cfg_attr(kani, kani::proof)]
 pub fn cmp_2limb_int() {
     let a: [u32; 2] = any_u32_arr();
@@ -85,7 +85,7 @@ pub fn cmp_2limb_int() {
 }
 
 // vacuity twin (must FAIL)
-// @h prop=C07 unwind=8 timeout=900 kind=twin
+// @h prop=C07 unwind=8 timeout=2700 kind=twin
 #[cfg_attr(kani, kani::proof)]
 pub fn twin_cmp() {
     let (a, c) = (any_u32(), any_u32());
@@ -137,7 +137,7 @@ fn logged_gcd(a: i64, b: i64) -> i64 {
     ref_gcd(a.unsigned_abs() as u32, b.unsigned_abs() as u32) as i64
 }
 
-// @h prop=C06 unwind=26 timeout=600 mem=12 what=Num::add:value_a/b+c/d_exact,lowest_terms,positive_denominator;|a|,|c|<=127,b,d<=255,all_signs,common_factors
+// @h prop=C06 unwind=26 timeout=2400 mem=12 what=Num::add:value_a/b+c/d_exact,lowest_terms,positive_denominator;|a|,|c|<=127,b,d<=255,all_signs,common_factors
 #[cfg_attr(kani, kani::proof)]
 #[cfg_attr(kani, kani::stub(BigNum::add, m_add))]
 #[cfg_attr(kani, kani::stub(BigNum::mul, m_mul))]
@@ -160,7 +160,7 @@ pub fn num_add() {
     std::mem::forget((x, y, r, z));
 }
 
-// @h prop=C06 unwind=26 timeout=600 mem=12 what=Num::mul:value_exact,lowest_terms,positive_denominator;|a|,|c|<=127,b,d<=255
+// @h prop=C06 unwind=26 timeout=2400 mem=12 what=Num::mul:value_exact,lowest_terms,positive_denominator;|a|,|c|<=127,b,d<=255
 #[cfg_attr(kani, kani::proof)]
 #[cfg_attr(kani, kani::stub(BigNum::add, m_add))]
 #[cfg_attr(kani, kani::stub(BigNum::mul, m_mul))]
@@ -183,7 +183,7 @@ pub fn num_mul() {
     std::mem::forget((x, y, r, z));
 }
 
-// @h prop=C06 unwind=26 timeout=600 mem=12 what=constructors_Num::new/from_big_num->optimize():15-bit_numerator,denominator_of_either_sign
+// @h prop=C06 unwind=26 timeout=2400 mem=12 what=constructors_Num::new/from_big_num->optimize():15-bit_numerator,denominator_of_either_sign
 #[cfg_attr(kani, kani::proof)]
 #[cfg_attr(kani, kani::stub(BigNum::div, m_div))]
 #[cfg_attr(kani, kani::stub(BigNum::gcd, m_gcd16))]
@@ -236,16 +236,16 @@ macro_rules! num_wide {
         }
     };
 }
-// @h prop=C06 unwind=8 timeout=600 mem=12 replay=optional stubs=BigNum::{add,mul,div}->one-limb_models,BigNum::gcd->contract_model what=Num::add_over_gcd_contract_model:8-bit_magnitudes,all_signs
+// @h prop=C06 unwind=8 timeout=2400 mem=12 replay=optional stubs=BigNum::{add,mul,div}->one-limb_models,BigNum::gcd->contract_model what=Num::add_over_gcd_contract_model:8-bit_magnitudes,all_signs
 num_wide!(num_add_wide8, any_u8, add, |a, b, c, d| smul(a, d) + smul(b, c));
-// @h prop=C06 unwind=8 timeout=600 mem=12 replay=optional stubs=BigNum::{add,mul,div}->one-limb_models,BigNum::gcd->contract_model what=Num::mul_over_gcd_contract_model:8-bit_magnitudes,all_signs
+// @h prop=C06 unwind=8 timeout=2400 mem=12 replay=optional stubs=BigNum::{add,mul,div}->one-limb_models,BigNum::gcd->contract_model what=Num::mul_over_gcd_contract_model:8-bit_magnitudes,all_signs
 num_wide!(num_mul_wide8, any_u8, mul, |a, _b, c, _d| smul(a, c));
-// @h prop=C06 unwind=8 timeout=1800 mem=12 tier=thorough kind=stretch replay=optional stubs=BigNum::{add,mul,div}->one-limb_models,BigNum::gcd->contract_model what=Num::add_over_gcd_contract_model:15-bit_magnitudes
+// @h prop=C06 unwind=8 timeout=3600 mem=12 tier=thorough kind=stretch replay=optional stubs=BigNum::{add,mul,div}->one-limb_models,BigNum::gcd->contract_model what=Num::add_over_gcd_contract_model:15-bit_magnitudes
 num_wide!(num_add_wide15, any_u16, add, |a, b, c, d| smul(a, d) + smul(b, c));
-// @h prop=C06 unwind=8 timeout=1800 mem=12 tier=thorough kind=stretch replay=optional stubs=BigNum::{add,mul,div}->one-limb_models,BigNum::gcd->contract_model what=Num::mul_over_gcd_contract_model:15-bit_magnitudes
+// @h prop=C06 unwind=8 timeout=3600 mem=12 tier=thorough kind=stretch replay=optional stubs=BigNum::{add,mul,div}->one-limb_models,BigNum::gcd->contract_model what=Num::mul_over_gcd_contract_model:15-bit_magnitudes
 num_wide!(num_mul_wide15, any_u16, mul, |a, _b, c, _d| smul(a, c));
 
-// @h prop=C06 unwind=8 timeout=600 mem=12 replay=optional what=optimize()_over_gcd_contract_model:16-bit_magnitudes,denominator_of_either_sign
+// @h prop=C06 unwind=8 timeout=2400 mem=12 replay=optional what=optimize()_over_gcd_contract_model:16-bit_magnitudes,denominator_of_either_sign
 #[cfg_attr(kani, kani::proof)]
 #[cfg_attr(kani, kani::stub(BigNum::div, m_div))]
 #[cfg_attr(kani, kani::stub(BigNum::gcd, m_gcd_contract))]
@@ -260,7 +260,7 @@ pub fn num_optimize_wide() {
     std::mem::forget(r);
 }
 
-// @h prop=C06 unwind=8 timeout=900 what=flip(reciprocal;0->NaN;sign_on_numerator),neg,minus,is_pos,is_nan;one-limb_values
+// @h prop=C06 unwind=8 timeout=2700 what=flip(reciprocal;0->NaN;sign_on_numerator),neg,minus,is_pos,is_nan;one-limb_values
 #[cfg_attr(kani, kani::proof)]
 pub fn flip_neg_ispos() {
     let (n, d, pos) = (any_u32(), any_u32(), any_bool());
@@ -292,7 +292,7 @@ pub fn flip_neg_ispos() {
     std::mem::forget((x, f, m, m2, m3));
 }
 
-// @h prop=C06 unwind=8 timeout=900 what=floor_of_non-negative_values:integer_path_real,fraction_path_over_modelled_div
+// @h prop=C06 unwind=8 timeout=2700 what=floor_of_non-negative_values:integer_path_real,fraction_path_over_modelled_div
 #[cfg_attr(kani, kani::proof)]
 #[cfg_attr(kani, kani::stub(BigNum::div, m_div))]
 pub fn floor_nonneg() {
@@ -308,7 +308,7 @@ pub fn floor_nonneg() {
     std::mem::forget((x, f));
 }
 
-// @h prop=C06 unwind=8 timeout=900 what=NaN(1/0_and_-1/0)_absorbs_add/mul_on_either_side;flip/neg/minus_of_NaN_are_NaN;is_pos_false
+// @h prop=C06 unwind=8 timeout=2700 what=NaN(1/0_and_-1/0)_absorbs_add/mul_on_either_side;flip/neg/minus_of_NaN_are_NaN;is_pos_false
 #[cfg_attr(kani, kani::proof)]
 #[cfg_attr(kani, kani::stub(BigNum::add, m_add))]
 #[cfg_attr(kani, kani::stub(BigNum::mul, m_mul))]
@@ -337,7 +337,7 @@ pub fn nan_absorbing() {
 }
 
 // vacuity twin (must FAIL)
-// @h prop=C06 unwind=26 timeout=600 mem=12 kind=twin
+// @h prop=C06 unwind=26 timeout=2400 mem=12 kind=twin
 #[cfg_attr(kani, kani::proof)]
 #[cfg_attr(kani, kani::stub(BigNum::add, m_add))]
 #[cfg_attr(kani, kani::stub(BigNum::mul, m_mul))]
@@ -393,7 +393,7 @@ pub(crate) fn m_num_mul(l: &Num, r: &Num) -> Num {
     num_of_v(vspec::v_mul(v_of_num(l), v_of_num(r)))
 }
 
-// @h prop=C07 unwind=12 timeout=1800 mem=16 tier=thorough kind=stretch what=two-limb_numerators_over_one-limb_denominators,both_signs(vs_128-bit_products_of_64x32)
+// @h prop=C07 unwind=12 timeout=3600 mem=16 tier=thorough kind=stretch what=two-limb_numerators_over_one-limb_denominators,both_signs(vs_128-bit_products_of_64x32)
 #[cfg_attr(kani, kani::proof)]
 pub fn cmp_2limb_frac() {
     let a: [u32; 2] = any_u32_arr();
